@@ -295,12 +295,66 @@ def check_program(ctx, prog, with_abs, scratch):
 case_st = st.tuples(fmodel.program_st(nfiles=(1, 2)), st.booleans())
 
 
+# ------------------------------------------------------------------ valid idioms (name re-use the language allows)
+@st.composite
+def idiom_case_st(draw):
+    from harness import idioms
+
+    mods = [draw(idioms.idiom_module_st(index=i)) for i in range(draw(st.integers(1, 2)))]
+    return {"files": {f"idi{i}.f90": m["text"] for i, m in enumerate(mods)}, "idioms": [m["idioms"] for m in mods], "order": [m["order"] for m in mods]}
+
+
+def gfortran_accepts(files, scratch):
+    import subprocess
+
+    d = os.path.join(scratch, "c07_gf")
+    shutil.rmtree(d, ignore_errors=True)
+    os.makedirs(d)
+    paths = []
+    for n in sorted(files):
+        with open(os.path.join(d, n), "w") as fh:
+            fh.write(files[n])
+        paths.append(os.path.join(d, n))
+    p = subprocess.run(["gfortran", "-fsyntax-only", "-std=f2018", "-J", d] + paths, capture_output=True, text=True)
+    shutil.rmtree(d, ignore_errors=True)
+    return None if p.returncode == 0 else p.stderr
+
+
+def check_idioms(ctx, case, scratch):
+    from harness.runner import HarnessError
+
+    if shutil.which("gfortran"):
+        err = gfortran_accepts(case["files"], scratch)
+        ctx.extra["idiom_programs_validated_with_gfortran"] = ctx.extra.get("idiom_programs_validated_with_gfortran", 0) + 1
+        if err:
+            raise HarnessError("idiom generator produced a program gfortran rejects:\n" + err[:1500] + "\n" + "\n".join(case["files"].values())[:4000])
+    discs = []
+    got = diags_of(case["files"], scratch)
+    allids = sorted({i for ids in case["idioms"] for i in ids})
+    ctx.case(("idioms", hash(tuple(sorted(case["files"].items())))), len(allids) >= 2,
+             sample={"idioms": case["idioms"], "order": case["order"]} if len(allids) >= 3 else None, classes=[f"idiom:{i}" for i in allids])
+    for n, ds in got.items():
+        if ds is None:
+            discs.append(Disc("valid:no-diagnostics-published", f"{n}: no publishDiagnostics after didOpen", {"files": case["files"]}))
+            continue
+        lines = case["files"][n].splitlines()
+        for (ln, sev, msg) in ds:
+            if sev == 1:
+                which = [i for i in allids]
+                label = "valid-idiom:error:" + re.sub(r'"[^"]*"', '"X"', msg)[:60]
+                discs.append(Disc(label, f"valid module ({'+'.join(which)}), {n}:{ln}: severity-1 diagnostic {msg!r} on {lines[ln].strip()[:70] if 0 <= ln < len(lines) else '?'!r}",
+                                  {"files": case["files"], "file": n}))
+    return discs
+
+
 def run(ctx):
     def oracle(v):
         return check_program(ctx, v[0], v[1], ctx.scratch)
 
     ctx.hyp(case_st, oracle, max_examples=ctx.n(6, 300), collect=bool(os.environ.get("VERIF_COLLECT")),
             case_of=lambda v: {"files": fmodel.render(v[0], fmodel.PLAIN).files})
+    ctx.hyp(idiom_case_st(), lambda c: check_idioms(ctx, c, ctx.scratch), max_examples=ctx.n(40, 1500), label="idioms",
+            collect=bool(os.environ.get("VERIF_COLLECT")), case_of=lambda c: {"files": c["files"]})
     for sig, v in ctx.violations.items():
         if isinstance(v.get("detail"), dict):
             v["case"] = dict(v["detail"])
